@@ -51,6 +51,17 @@ EXPECTED_MISS = {
                  'forms decide alike), not that nothing else may enter it; '
                  'a stricter equality reports fewer redundant rules and '
                  'changes no decision',
+    'C03-r11-1': 'set_rules(overwrite=True) binds an empty store and fills '
+                 'it afterwards: identical sequentially, wrong only for a '
+                 'decision taken meanwhile - C03 quantifies over inputs and '
+                 'configurations; for C20 the extra fill falls into the '
+                 'groups of unlocked writes already listed (F9.1 / F9.2)',
+    'C20-r11-1': 'the deprecated-rule handler reads the operator\'s override '
+                 'from the live store instead of the file-rule record (equal '
+                 'sequentially; C11.TABLE reports the unfamiliar '
+                 'expression): the stale-gate window it opens is one more '
+                 'read of a store that today\'s tree already refills '
+                 'without a lock (F9)',
     'C20-r8-1': 'pre-fills the not yet published store so that a concurrent '
                 'caller no longer finds it empty and no longer reloads for '
                 'itself: the write discipline is unchanged, what changes is '
